@@ -35,6 +35,8 @@ pub mod input_buffer {
             ensures
                 final(stream).written() == old(stream).written(),
                 final(self.buf).consumed() == old(self.buf).consumed(),
+                // Ok(0) is the end of the stream (the reserve is never empty: at least MIN_READ)
+                final(stream).at_eof() == (r matches Ok(n) && n == 0),
                 // assumption: a transport delivers fewer than 2^64 bytes in its lifetime (bytes_read cannot overflow)
                 final(stream).delivered().len() <= usize::MAX,
                 match r {
